@@ -163,6 +163,9 @@ def run(tier, seed):
     jobs, meta = [], {}
     ext = dict(FORMATS)
     ext["ti_txt"] = "txt"
+    # every fourth file case and every fifth session runs under another CPU selection
+    OTHER = ["68000", "avr8", "mips", "z80", "riscv", "arm", "6502", "propeller", "8051", "dspic", "pic14", "stm8",
+             "thumb", "powerpc", "sh4", "tms9900", "1802", "65816", "epiphany", "xtensa"]
     for i, c in enumerate(fcases):
         data = apply(c, good)
         if data is None:
@@ -175,13 +178,18 @@ def run(tier, seed):
             key = "file:%s:%s.%s" % (c["fmt"], c["part"], c["f"]["name"])
         else:
             key = "file:%s:%s%s" % (c["fmt"], c["k"], ":" + c["m"] if c["k"] == "text" else "")
+        cpu = OTHER[(i // 4) % len(OTHER)] if i % 4 == 3 else "msp430"
+        if cpu != "msp430":
+            key += "@" + cpu
         meta[cid] = (key, json.dumps(c))
-        jobs.append((exe, wd, cid, "t." + ext[c["fmt"]], data, ["-msp430"] + targs + mode, script))
+        jobs.append((exe, wd, cid, "t." + ext[c["fmt"]], data, ["-" + cpu] + targs + mode, script))
     for i, sq in enumerate(sessions):
         cid = "s%d" % i
         script = "".join(("%s %s" % (x["cmd"], x["arg"])).strip() + "\n" for x in sq) + "quit\n"
-        meta[cid] = ("session:" + " ; ".join(x["cmd"] + ("(" + re.sub(r"[0-9]", "#", x["arg"])[:12] + ")" if x["arg"] else "") for x in sq), script)
-        jobs.append((exe, wd, cid, "t.hex", good["hex"], ["-msp430"], script))
+        cpu = OTHER[(i // 5) % len(OTHER)] if i % 5 == 4 else "msp430"
+        meta[cid] = ("session:" + " ; ".join(x["cmd"] + ("(" + re.sub(r"[0-9]", "#", x["arg"])[:12] + ")" if x["arg"] else "") for x in sq)
+                     + ("@" + cpu if cpu != "msp430" else ""), script)
+        jobs.append((exe, wd, cid, "t.hex", good["hex"], ["-" + cpu], script))
     events, details = [], {}
     with ThreadPoolExecutor(C.NCPU) as ex:
         for cid, ob, san in ex.map(run_util, jobs):
